@@ -181,7 +181,15 @@ var notOpType = &operationType{Type: "NOT", NumArgs: 0, Precedence: 50, Handler:
 var toNumberOpType = &operationType{Type: "TO_NUMBER", NumArgs: 0, Precedence: 50, Handler: toNumberOperator}
 var emptyOpType = &operationType{Type: "EMPTY", Precedence: 50, Handler: emptyOperator}
 
-var envsubstOpType = &operationType{Type: "ENVSUBST", NumArgs: 0, Precedence: 50, Handler: envsubstOperator}
+// envsubst with options (ne, nu, ff) describes itself by the operation's value
+var envsubstOpType = &operationType{Type: "ENVSUBST", NumArgs: 0, Precedence: 50, Handler: envsubstOperator,
+	ToString: func(p *Operation) string {
+		if description, ok := p.Value.(string); ok && description != "" {
+			return description
+		}
+		return "ENVSUBST"
+	},
+}
 
 var recursiveDescentOpType = &operationType{Type: "RECURSIVE_DESCENT", NumArgs: 0, Precedence: 50, Handler: recursiveDescentOperator}
 
